@@ -151,6 +151,7 @@ def run(ctx):
     for name, k in contracts.COUNTS.items():
         if name.startswith("C10."):
             ctx.mon(name, k)
+    ctx.note("max_line_events_in_one_budgeted_call", contracts.Budget.get().max_seen)
 
 
 def replay(ctx, w):
